@@ -507,9 +507,14 @@ async def _fetch_with_probe(
             f"exceeds max_fetch_bytes ({config.max_fetch_bytes})"
         )
 
-    # Decide path
+    # Decide path.  A reported length of 0 never takes the parallel path: it
+    # would compute zero ranges and return b"" without a single data request,
+    # so an origin whose HEAD (or probe) wrongly says ``Content-Length: 0``
+    # would yield an empty object when ``parallel_threshold_bytes`` is 0.  The
+    # plain GET below returns whatever the origin actually serves.
     use_parallel = (
         content_length is not None
+        and content_length > 0
         and "bytes" in accept_ranges.lower()
         and content_length >= config.parallel_threshold_bytes
     )
